@@ -113,7 +113,7 @@ def run_entry(entry, n, seed, acc, tier, rot=0):
         if charset == 'B' and dl[2] not in '!"&\'()*+,-./:;?=':
             # under the basic character set the component separator (data of ISA16) must be a basic character
             dl = (dl[0], dl[1], ch.choice([c for c in '!&+,/;?=' if c not in (dl[0], dl[1], dl[3])]), dl[3])
-        res = genfaulty.build(entry, ch, acc, avoid='~*:^' + ''.join(dl), flavor='punct', envelope=.2, malformed=.15, big=.35)
+        res = genfaulty.build(entry, ch, acc, avoid='~*:^' + ''.join(dl), flavor='punct', envelope=.2, malformed=.25, big=.35)
         if res is None:
             return {'skip': 'genfail'}
         doc, exps = res
@@ -177,7 +177,7 @@ def run_fixtures(acc, seed):
 
 
 def shards(tier, seed):
-    s = [{'kind': 'gen', 'entry': e, 'i': i, 'n': 300 if tier == 'thorough' else 16} for i, e in enumerate(genfaulty.entries(exclude_ack=False))]
+    s = [{'kind': 'gen', 'entry': e, 'i': i, 'n': 300 if tier == 'thorough' else 22} for i, e in enumerate(genfaulty.entries(exclude_ack=False))]
     s.append({'kind': 'fixtures'})
     return s
 
